@@ -1,6 +1,7 @@
 import MgProof.C11.LemmasAL
 import MgProof.C11.LemmasStack
 import MgProof.C11.LemmasLLOps
+import MgProof.C11.LemmasQueue
 /-!
 # C11 — property theorems (sequence containers and pointer slot)
 
@@ -440,4 +441,89 @@ example : ∃ s, init 2 = some s ∧
   ⟨_, rfl, by decide, by decide⟩
 
 end LL
+
+/-! ## Queue -/
+namespace Q
+open MgModel.C11.Q
+open MgProof.C11.LL (MInv ids path)
+
+/-- **Queue, one call**: enqueue / dequeue / front / clear / traversal succeed on
+the heap model and answer as the FIFO reference sequence. -/
+theorem step_refines {s : Queue} {l : Spec} (inv : Inv s l) (hsmall : l.length + 1 < 2 ^ 64)
+    (op : Op) :
+    ∃ s', step s op = .ok (s', (specStep l s.mem.cells.length op).2.2) ∧
+      Inv s' (specStep l s.mem.cells.length op).1 ∧
+      s'.mem.cells.length = (specStep l s.mem.cells.length op).2.1 ∧
+      (specStep l s.mem.cells.length op).1.length ≤ l.length + 1 := by
+  cases op with
+  | enq v =>
+    obtain ⟨s', hs, inv', hlen⟩ := enqueue_refines inv v hsmall
+    exact ⟨s', by simp [step, specStep, hs, bind, Except.bind, pure, Except.pure], inv', hlen,
+      by simp [specStep, specEnqueue]⟩
+  | deq fr =>
+    obtain ⟨s', hs, inv', hlen⟩ := dequeue_refines inv fr
+    refine ⟨s', by simp [step, specStep, hs, bind, Except.bind, pure, Except.pure], inv', hlen, ?_⟩
+    cases l with
+    | nil => simp [specStep, specDequeue]
+    | cons a l' => simp [specStep, specDequeue]; omega
+  | front =>
+    exact ⟨s, by simp [step, specStep, front_refines inv, bind, Except.bind, pure, Except.pure], inv,
+      rfl, Nat.le_succ _⟩
+  | clear fr =>
+    obtain ⟨s', hs, inv', hlen⟩ := clear_refines inv fr
+    exact ⟨s', by simp [step, specStep, hs, bind, Except.bind, pure, Except.pure], inv', hlen,
+      by simp [specStep, specClear]⟩
+  | dump =>
+    obtain ⟨hf, hb⟩ := toList_refines inv
+    exact ⟨s, by simp [step, specStep, hf, hb, inv.size, ids, bind, Except.bind, pure, Except.pure],
+      inv, rfl, Nat.le_succ _⟩
+
+/-- **Queue, every history.** -/
+theorem run_refines (ops : List Op) : ∀ {s : Queue} {l : Spec}, Inv s l →
+    l.length + ops.length < 2 ^ 64 →
+    ∃ s', run s ops = .ok (s', (specRun l s.mem.cells.length ops).2.2) ∧
+      Inv s' (specRun l s.mem.cells.length ops).1 := by
+  induction ops with
+  | nil => intro s l inv _; exact ⟨s, rfl, inv⟩
+  | cons op ops ih =>
+    intro s l inv hsmall
+    simp only [List.length_cons] at hsmall
+    obtain ⟨s1, h1, inv1, hk1, hlen⟩ := step_refines inv (by omega) op
+    obtain ⟨s2, h2, inv2⟩ := ih inv1 (by omega)
+    rw [hk1] at h2 inv2
+    exact ⟨s2, by simp [run, specRun, h1, h2, bind, Except.bind, pure, Except.pure], by
+      simpa [specRun] using inv2⟩
+
+theorem inv_init {c : Nat} {s : Queue} (h : init c = some s) :
+    Inv s [] ∧ s.mem.cells.length = 0 := by
+  have hm : MInv emptyMem [] := by
+    refine ⟨⟨by simp [path, ids], ?_⟩, by simp⟩
+    simp [path, ids, Link.Links, nxt, prv, DMem.get, emptyMem]
+  unfold init at h
+  split at h
+  · split at h
+    · simp at h
+    · injection h with h; subst h; exact ⟨⟨hm, rfl, by simp⟩, rfl⟩
+  · injection h with h; subst h; exact ⟨⟨hm, rfl, by simp⟩, rfl⟩
+
+/-- **C11, queue.** A queue created by `muggle_queue_init`, with or without node
+pool, is a FIFO: every history of enqueue / dequeue / front / clear returns exactly
+the reference answers (front element, callback data, both traversals, size). -/
+theorem queue_behaves_as_fifo {c : Nat} {s : Queue} (h : init c = some s) (ops : List Op)
+    (hsmall : ops.length < 2 ^ 64) :
+    ∃ s', run s ops = .ok (s', (specRun [] 0 ops).2.2) ∧ Inv s' (specRun [] 0 ops).1 := by
+  obtain ⟨inv, hk⟩ := inv_init h
+  have := run_refines ops inv (by simpa using hsmall)
+  rwa [hk] at this
+
+example : ∃ s, init 1 = some s ∧
+    (run s [.enq 3, .enq 0, .enq 7, .front, .deq true, .deq true, .dump]).toOption.map (·.2)
+    = some [.node (.node 0), .node (.node 1), .node (.node 2), .front (some (.node 0, 3)),
+        .freed [3], .freed [], .contents 1 [(.node 2, 7)] [.node 2]] ∧
+    (specRun [] 0 [.enq 3, .enq 0, .enq 7, .front, .deq true, .deq true, .dump]).2.2
+    = [.node (.node 0), .node (.node 1), .node (.node 2), .front (some (.node 0, 3)),
+        .freed [3], .freed [], .contents 1 [(.node 2, 7)] [.node 2]] :=
+  ⟨_, rfl, by decide, by decide⟩
+
+end Q
 end MgProof.C11
